@@ -24,6 +24,7 @@ ASSUMPTIONS = [
     "an extra reply is a violation",
 ]
 REQUIRED_MONITORS = ["reply_sequence", "data_eof", "prefix", "followup", "silence"]
+ANCHOR_FUNCTIONS = ['server.py:Server.abor', 'server.py:worker.<locals>.wrapper']
 EXHAUSTIVE = {"quick": True, "thorough": True}
 WALL_BUDGET = {"quick": 900, "thorough": 7200}
 
